@@ -28,8 +28,8 @@ Record vnode := mk_vnode {
   v_targets : list name;          (* string targets; END is not listed *)
   v_defaults : dict val;          (* signature defaults *)
   v_cache : bool;
-  v_in_ty : dict ty;              (* get_input_type: absent = None *)
-  v_out_ty : dict ty }.           (* get_output_type *)
+  v_in_ty : dict (list (option ty));    (* get_input_types: one entry per (inner) consumer, None = not annotated; absent = [None] *)
+  v_out_ty : dict (list (option ty)) }. (* get_output_types: one entry per (inner) producer *)
 
 Inductive espec := ESpec (src dst : name) (vals : option (list name)).
 
@@ -156,13 +156,15 @@ Section Validate.
          end)
     end.
 
+  Definition tys (d : dict (list (option ty))) (v : name) : list (option ty) :=
+    match dget d v with Some l => l | None => [None] end.
+  (* _validate_type_pair: both sides annotated and compatible *)
+  Definition ty_pair_ok (a b : option ty) : bool :=
+    match a, b with Some x, Some y => compat sub any_id x y | _, _ => false end.
+  (* _validate_edge_types: every (producer type, consumer type) pair the two nodes offer *)
   Definition type_ok (nodes : list vnode) (s d v : name) : bool :=
     match find_v nodes s, find_v nodes d with
-    | Some ns, Some nd =>
-        match dget (v_out_ty ns) v, dget (v_in_ty nd) v with
-        | Some a, Some b => compat sub any_id a b
-        | _, _ => false
-        end
+    | Some ns, Some nd => forallb (fun a => forallb (ty_pair_ok a) (tys (v_in_ty nd) v)) (tys (v_out_ty ns) v)
     | _, _ => false
     end.
 
